@@ -1524,7 +1524,7 @@ impl State {
                         }
                         // (a send that cannot finish - the stream never has room again - is abandoned after an hour of virtual
                         // time, like an application would; it counts as a failed send)
-                        let r = match tokio::time::timeout(std::time::Duration::from_secs(3600), client.send_message(req)).await {
+                        let r = match tokio::time::timeout(std::time::Duration::from_secs(7200), client.send_message(req)).await {
                             Ok(r) => r,
                             Err(_) => Err(diameter::Error::ClientError("send abandoned by the harness".into())),
                         };
@@ -1544,37 +1544,32 @@ impl State {
                                     }
                                 }
                             }
-                            futs.push((fo, early));
+                            // whoever waits for the future waits in a task of its own, from now on, for an hour of virtual
+                            // time (so that a later send that never finishes cannot hide a future that should long be done).
+                            // A future that only completes because the deadline's own timer polled it again was never woken
+                            // by its answer: that counts as pending.
+                            let show = |r: std::result::Result<diameter::Result<DiameterMessage>, tokio::time::error::Elapsed>| match r {
+                                Err(_) => "pending".to_string(),
+                                Ok(Ok(m)) => format!("got:{}:{}", m.get_hop_by_hop_id(), m.get_end_to_end_id()),
+                                Ok(Err(_)) => "err".to_string(),
+                            };
+                            futs.push(match (fo, early) {
+                                (_, Some(e)) => tokio::spawn(async move { e }),
+                                (None, _) => tokio::spawn(async move { "none".to_string() }),
+                                (Some(f), _) => tokio::spawn(async move {
+                                    let t0 = tokio::time::Instant::now();
+                                    let r = tokio::time::timeout(std::time::Duration::from_secs(3600), f).await;
+                                    if t0.elapsed() >= std::time::Duration::from_secs(3599) {
+                                        return "pending".to_string();
+                                    }
+                                    show(r)
+                                }),
+                            });
                         }
                     }
                     let mut res: Vec<String> = vec![];
-                    for (f, early) in futs {
-                        let show = |r: std::result::Result<diameter::Result<DiameterMessage>, tokio::time::error::Elapsed>| match r {
-                            Err(_) => "pending".to_string(),
-                            Ok(Ok(m)) => format!("got:{}:{}", m.get_hop_by_hop_id(), m.get_end_to_end_id()),
-                            Ok(Err(_)) => "err".to_string(),
-                        };
-                        res.push(match (f, early) {
-                            (_, Some(e)) => e,
-                            (None, _) => "none".to_string(),
-                            // ... and later hands it to another task, which waits for it there
-                            (Some(f), _) if amode == 1 => match tokio::spawn(async move {
-                                // (a future that only completes because the deadline's own timer polled it again was never
-                                // woken by its answer: that counts as pending)
-                                let t0 = tokio::time::Instant::now();
-                                let r = tokio::time::timeout(std::time::Duration::from_secs(3600), f).await;
-                                if t0.elapsed() >= std::time::Duration::from_secs(3599) {
-                                    return tokio::time::timeout(std::time::Duration::ZERO, std::future::pending::<diameter::Result<DiameterMessage>>()).await;
-                                }
-                                r
-                            })
-                            .await
-                            {
-                                Ok(r) => show(r),
-                                Err(_) => "panic".to_string(),
-                            },
-                            (Some(f), _) => show(tokio::time::timeout(std::time::Duration::from_secs(3600), f).await),
-                        });
+                    for h in futs {
+                        res.push(h.await.unwrap_or_else(|_| "panic".to_string()));
                     }
                     let stopped = tokio::time::timeout(std::time::Duration::from_secs(3600), reader).await.is_ok();
                     sync_hooks(&ulog);
